@@ -653,6 +653,15 @@ func MutateEvents(v val.V, at, how int) (val.V, string, bool) {
 			case how%7 == 3 && x.K == val.String:
 				x.S = x.S + rapidishSuffix(how)
 				op, ok = "stringTweak", true
+			case how%7 == 4 && x.K == val.String:
+				// insert a short piece somewhere inside (a discriminant or field with extra characters, a doubled delimiter …)
+				pos := (how / 7) % (len(x.S) + 1)
+				x.S = x.S[:pos] + []string{"x", ":", "0", "-", ",", "="}[(how/91)%6] + x.S[pos:]
+				op, ok = "stringInsert", true
+			case how%7 == 5 && x.K == val.String && len(x.S) > 0:
+				pos := (how / 7) % len(x.S)
+				x.S = x.S[:pos] + x.S[pos+1:]
+				op, ok = "stringDelete", true
 			default:
 				var m val.V
 				m, ok = val.Mutate(*x, 0, how)
